@@ -9,9 +9,9 @@ from .. import engine, common, gen
 
 ID = "C01"
 
-DEPS = ["impl", "gen_inline", "gen_where", "val_gen", "val_impl", "concrete", "val_concrete", "nodeps"]
+DEPS = ["impl", "wild", "gen_inline", "gen_where", "val_gen", "val_impl", "concrete", "val_concrete", "nodeps"]
 DEPS_DESC = {
-    "impl": "deps: &impl Dep", "gen_inline": "<D: Dep>(deps: &D)", "gen_where": "<D>(deps: &D) where D: Dep",
+    "impl": "deps: &impl Dep", "wild": "_: &impl Dep", "gen_inline": "<D: Dep>(deps: &D)", "gen_where": "<D>(deps: &D) where D: Dep",
     "val_gen": "<D: Dep>(deps: D)", "val_impl": "deps: impl Dep", "concrete": "deps: &App", "val_concrete": "deps: App", "nodeps": "no_deps",
 }
 PARAMS = "irmstunw"
@@ -73,6 +73,8 @@ def render_fn(s, j, vis):
     generics, where, deps_param = "", "", ""
     if deps == "impl":
         deps_param = "deps: &impl Dep"
+    elif deps == "wild":
+        deps_param = "_: &impl Dep"
     elif deps == "gen_inline":
         generics, deps_param = "<D: Dep>", "deps: &D"
     elif deps == "gen_where":
@@ -91,6 +93,8 @@ def render_fn(s, j, vis):
         plist = ([deps_param] if deps_param else []) + ["$p: i64", "x: i64", "y: i64"]
     if deps in ("impl", "gen_inline", "gen_where"):
         head = ["rt::addr(deps)", "rt::tn(deps)", "deps.tok()"]
+    elif deps == "wild":
+        head = ["0usize", '"-"', "0u64"]
     elif deps in ("val_gen", "val_impl"):
         head = ["0usize", "rt::tn(&deps)", "deps.tok()"]
     elif deps == "concrete":
@@ -176,6 +180,10 @@ def render(s):
             L.append("        let app = ::entrait::Impl::new(App { tok: 7 });")
             emit("d%d" % j, "%s%s(%s)" % (path, f, ", ".join(["&app"] + args)), "rt::addr(&app)", "rt::tn(&app)")
             emit("t%d" % j, "app.%s(%s)" % (f, ", ".join(args)), "rt::addr(&app)", "rt::tn(&app)")
+        elif deps == "wild":
+            L.append("        let app = ::entrait::Impl::new(App { tok: 7 });")
+            emit("d%d" % j, "%s%s(%s)" % (path, f, ", ".join(["&app"] + args)), "0usize", '"-"')
+            emit("t%d" % j, "app.%s(%s)" % (f, ", ".join(args)), "0usize", '"-"')
         elif deps in ("val_gen", "val_impl"):
             tn = "rt::tn_of::<::entrait::Impl<App>>()"
             emit("d%d" % j, "%s%s(%s)" % (path, f, ", ".join(["::entrait::Impl::new(App { tok: 7 })"] + args)), "0usize", tn)
@@ -208,7 +216,7 @@ def model(s):
     for i, k in enumerate(params):
         shown += gen.param_expected(k, i + 1)
     muts = [str(10 + i + 1 + 100) for i, k in enumerate(params) if k == "m"]
-    tok = "0" if s["deps"] == "nodeps" else "7"
+    tok = "0" if s["deps"] in ("nodeps", "wild") else "7"
     calls = ["d", "t"] + (["c"] if s["deps"] in ("concrete", "val_concrete") else [])
     for j, _ in enumerate(fn_names(s)):
         for c in calls:
